@@ -92,6 +92,7 @@ type qtQueries struct {
 	pts     [][2]int
 	ks      []int
 	mds     []int
+	rev     bool // the filters in reverse order
 	boxes   [][4]int
 	filters [][2]int
 	noQuery bool
@@ -199,7 +200,16 @@ func qtObserve(q *quadtree.Quadtree, e *qtEv, qs *qtQueries, bufs bool) {
 			}
 		}
 	}()
-	for _, f := range qs.filters {
+	// (the filters in either order: whether the first search on a tree that has just changed is a filtered one or not
+	// must not matter to the ones that follow)
+	filters := qs.filters
+	if qs.rev && len(filters) > 1 {
+		filters = make([][2]int, len(qs.filters))
+		for i := range qs.filters {
+			filters[i] = qs.filters[len(qs.filters)-1-i]
+		}
+	}
+	for _, f := range filters {
 		ff := accept(f)
 		for _, qp := range qs.pts {
 			pt := qs.m.pt(qp)
@@ -542,6 +552,7 @@ func init() {
 							}
 						}
 					}
+					qs.rev = i%4 >= 2
 					site = guard(func() { qtObserve(q, &e, qs, i%2 == 1) })
 					qs.ks, qs.mds = ks0, mds0
 				}
